@@ -530,7 +530,7 @@ class Ace(AceBase):
         if "addrgroup" in skip_:
             if "addrgroup" in [self.srcaddr.type, other.srcaddr.type]:
                 return False
-        elif "nc_wildcard" in skip_:
+        if "nc_wildcard" in skip_:
             if "wildcard" in [self.srcaddr.type, other.srcaddr.type]:
                 if not (self.srcaddr.ipnet and other.srcaddr.ipnet):
                     return False
@@ -551,7 +551,7 @@ class Ace(AceBase):
         if "addrgroup" in skip_:
             if "addrgroup" in [self.dstaddr.type, other.dstaddr.type]:
                 return False
-        elif "nc_wildcard" in skip_:
+        if "nc_wildcard" in skip_:
             if "wildcard" in [self.dstaddr.type, other.dstaddr.type]:
                 if not (self.dstaddr.ipnet and other.dstaddr.ipnet):
                     return False
